@@ -1,6 +1,10 @@
 package main
 
 import (
+	"github.com/failsafe-go/failsafe-go/failsafehttp"
+	"net/http"
+	"io"
+	"bytes"
 	"context"
 	"errors"
 	"flag"
@@ -1028,6 +1032,43 @@ func stressFuture(seed int64, scale int) int {
 			}
 		}
 	}
+	// an executor is reusable: executions on it are independent of what happened to earlier ones. One executor (fallback around a
+	// retry policy, bound to a context) runs an async execution that is cancelled through its ExecutionResult, a second one that
+	// overlaps with a third and is cancelled while the third runs, and then a plain synchronous one: the executions nobody
+	// cancelled get their fallback applied (C10) and complete normally.
+	for i := 0; i < 10*scale; i++ {
+		var fbCalls atomic.Int32
+		fb := fallback.BuilderWithFunc(func(failsafe.Execution[int]) (int, error) { fbCalls.Add(1); return 5, nil }).Build()
+		rp := retrypolicy.Builder[int]().WithMaxRetries(1).Build()
+		ctx, cancelCtx := context.WithCancel(context.Background())
+		ex := failsafe.NewExecutor[int](fb, rp).WithContext(ctx)
+		entered := make(chan struct{}, 4)
+		blocked := func(e failsafe.Execution[int]) (int, error) {
+			entered <- struct{}{}
+			<-e.Canceled()
+			return 0, errX
+		}
+		a := ex.GetWithExecutionAsync(blocked)
+		<-entered
+		gate := make(chan struct{})
+		b := ex.GetWithExecutionAsync(func(e failsafe.Execution[int]) (int, error) {
+			entered <- struct{}{}
+			<-gate
+			return 0, errX // handled by the retry policy (twice), then replaced by the fallback
+		})
+		<-entered
+		a.Cancel()
+		a.Get()
+		close(gate)
+		bv, berr := b.Get()
+		cv, cerr := ex.Get(func() (int, error) { return 0, errX })
+		if bv != 5 || berr != nil || cv != 5 || cerr != nil || fbCalls.Load() != 2 {
+			v.add(fmt.Sprintf("executions on an executor on which an earlier async execution was cancelled: overlapping one returned (%d, %v), later one (%d, %v), fallback applied %d times (want (5, nil) twice, 2 applications)",
+				bv, berr, cv, cerr, fbCalls.Load()))
+		}
+		cancelCtx()
+		v.count("executor-reused-after-cancel")
+	}
 	return v.report("future", runs)
 }
 
@@ -1363,6 +1404,52 @@ func stressShared(seed int64, scale int) int {
 		v.add(fmt.Sprintf("%d executions through a shared retry policy (maxRetries 2, always failing) produced OnFailure=%d OnRetryScheduled=%d OnRetry=%d OnRetriesExceeded=%d executor OnFailure=%d",
 			n, bFail.Load(), bSched.Load(), bRetry.Load(), bExceeded.Load(), bDone.Load()))
 	}
+	// hedged HTTP attempts of one request each read their own view of the request body: a transport that reads the body in two
+	// halves, the first attempt's second half only after the hedge has read everything, must see the complete body twice
+	{
+		payload := bytes.Repeat([]byte("0123456789abcdef"), 256)
+		var bad atomic.Int32
+		firstHalfRead, hedgeDone := make(chan struct{}, 64), make(chan struct{}, 64)
+		var arrivals atomic.Int32
+		ft := roundTripFunc(func(r *http.Request) (*http.Response, error) {
+			k := arrivals.Add(1)
+			buf := make([]byte, len(payload))
+			n := 0
+			if k%2 == 1 { // first attempt of a request: half, wait for the hedge, rest
+				m, _ := io.ReadFull(r.Body, buf[:len(payload)/2])
+				n += m
+				firstHalfRead <- struct{}{}
+				select {
+				case <-hedgeDone:
+				case <-time.After(time.Second):
+				}
+			} else {
+				<-firstHalfRead
+			}
+			rest, _ := io.ReadAll(r.Body)
+			n += copy(buf[n:], rest)
+			if n != len(payload) || !bytes.Equal(buf, payload) {
+				bad.Add(1)
+			}
+			if k%2 == 0 {
+				hedgeDone <- struct{}{}
+				time.Sleep(2 * time.Millisecond) // let the first attempt finish reading before the hedge wins
+			}
+			return &http.Response{StatusCode: 200, Header: http.Header{}, Body: io.NopCloser(strings.NewReader("ok")), Request: r}, nil
+		})
+		rt := failsafehttp.NewRoundTripper(ft, hedgepolicy.BuilderWithDelay[*http.Response](200*time.Microsecond).Build())
+		for i := 0; i < 4*scale; i++ {
+			req, _ := http.NewRequest("POST", "http://hedged.invalid/", bytes.NewBuffer(append([]byte{}, payload...)))
+			if resp, err := rt.RoundTrip(req); err == nil && resp != nil {
+				resp.Body.Close()
+			}
+			time.Sleep(3 * time.Millisecond)
+		}
+		if bad.Load() > 0 {
+			v.add(fmt.Sprintf("%d hedged HTTP attempts read a request body that was not the complete original (attempts of one request share a reader)", bad.Load()))
+		}
+		v.count("http-hedged-bodies")
+	}
 	// the winner of a hedged execution keeps an uncancelled context (C09) also when later executions go through the same
 	// hedge policy instance: nothing of one execution's attempts may be visible to another execution
 	hpShared := hedgepolicy.BuilderWithDelay[int](100 * time.Microsecond).WithMaxHedges(2).Build()
@@ -1454,3 +1541,7 @@ func init() {
 		}
 	}
 }
+
+type roundTripFunc func(*http.Request) (*http.Response, error)
+
+func (f roundTripFunc) RoundTrip(r *http.Request) (*http.Response, error) { return f(r) }
